@@ -289,11 +289,73 @@ def audit_lp_meat(r, tag, fails, pre):
     return n
 
 
+PIN_KEYS = ["meat", "outdoor_crops", "stored_food", "methane_scp", "cellulosic_sugar", "seaweed"]
+
+
+def audit_pins(r, tag, fails, pre, doc_order):
+    """what the round-2 OPTIMISER receives as minimum human consumption (its pins, billion kcals per month) must be
+    what the min-needs helper returned in the same run, food by food and month by month; and the clauses of the
+    property (monthly total, bounds, priority) must hold on what is RECEIVED (fish, dairy and greenhouse are not
+    optimiser variables: for them the helper's own figures are what reaches the optimiser as constants)"""
+    lp = [x for x in r.get("lp_meat", []) if not x.get("capture_error")]
+    mn = (r.get("minneeds") or [None])[-1]
+    l2 = next((x for x in lp if x.get("ty") == "to_animals"), None)
+    if mn is None or l2 is None or "out_bil" not in mn or not l2.get("pins"):
+        pre["pins_not_comparable"] += 1
+        return 0
+    pre["pins_compared"] += 1
+    key = "C18:min-needs-not-handed-to-round2@run_round_2"
+    nm = mn["N"]
+    helper = {k: np.array(unhex(v)) for k, v in mn["out_bil"].items()}
+    avail_s = {a: np.array(unhex(v)) for a, v in mn["series_bil"].items()}
+    scale = max([1.0] + [float(np.max(np.abs(v))) for v in helper.values() if len(v)])
+    recv = {}
+    n = 0
+    for k in doc_order:
+        if k in PIN_KEYS:
+            got = np.array(unhex(l2["pins"][k]))
+            n += 1
+            if len(got) != len(helper[k]) or float(np.max(np.abs(got - helper[k]))) > 1e-9 * scale:
+                m = int(np.argmax(np.abs(got - helper[k]))) if len(got) == len(helper[k]) else -1
+                fail(fails, key, f"{k}, month {m}: the round-2 optimiser is handed a minimum of {float(got[m])!r} billion kcals, "
+                     f"the min-needs helper returned {float(helper[k][m])!r}", tag, real=tag)
+            recv[k] = got
+        else:
+            recv[k] = helper[k]
+    if any(len(recv[k]) < nm for k in doc_order):
+        return n
+    f = unhex(mn["bil_per_daily"])
+    cap = unhex(mn["K"]) * min(unhex(mn["pf"]), unhex(mn["T"])) / 100.0 * f
+    for m in range(nm):
+        avail = [sum(float(avail_s[a][m]) for a in AVAIL_OF[k]) for k in doc_order]
+        got = [float(recv[k][m]) for k in doc_order]
+        want = min(cap, sum(avail))
+        n += 3
+        if abs(sum(got) - want) > 1e-9 * max(1.0, scale, abs(want)):
+            fail(fails, key + ":total", f"month {m}: what round 2 receives adds up to {sum(got)!r} billion kcals, expected "
+                 f"min(ceiling {cap!r}, eaten in round 1 {sum(avail)!r})", tag, real=tag)
+            break
+        bad = [k for k, a, g in zip(doc_order, avail, got) if g < -1e-9 * scale or g > a + 1e-9 * max(1.0, scale)]
+        if bad:
+            fail(fails, key + ":bound", f"month {m}: received minimum of {bad[0]} outside [0, eaten in round 1]", tag, real=tag)
+            break
+        partial = None
+        for k, a, g in zip(doc_order, avail, got):
+            if partial and g > 1e-9 * max(1.0, scale):
+                fail(fails, key + ":priority", f"month {m}: {k} is mandated ({g!r}) although the earlier food {partial} is "
+                     "not fully mandated", tag, real=tag)
+                return n
+            if g < a - 1e-9 * max(1.0, scale) and partial is None:
+                partial = k
+    return n
+
+
 def audit_real(real, fails, stats, doc_order):
     n = 0
     handoffs = 0
     pre = {"runs": 0, "bump_precondition_holds": 0, "inc_min": None, "round2_skipped": 0, "errors": 0,
-           "retiming_moved_meat_runs": 0, "retiming_months_changed": 0, "lp_meat_compared": 0, "lp_meat_not_comparable": 0}
+           "retiming_moved_meat_runs": 0, "retiming_months_changed": 0, "lp_meat_compared": 0, "lp_meat_not_comparable": 0,
+           "pins_compared": 0, "pins_not_comparable": 0}
     for r in real:
         tag = {"country": r["country"], "option": r.get("option", {}), "threshold": r.get("threshold")}
         pre["runs"] += 1
@@ -331,6 +393,7 @@ def audit_real(real, fails, stats, doc_order):
                 fail(fails, "C18:handoff-running-total@compute_parameters_second_round",
                      "cumulative meat cap of round 2 is not the running sum of the re-timed monthly meat", tag)
         n += audit_lp_meat(r, tag, fails, pre)
+        n += audit_pins(r, tag, fails, pre, doc_order)
         th = r.get("third")
         for rec in r.get("bump", []):
             c = {k: unhex(rec[k]) for k in ("b", "f", "inc", "maxb", "maxf", "avail")}
